@@ -15,12 +15,13 @@ ProbeStep == /\ phase = "burst" /\ Len(hist) < NProbes
                   /\ K!Probe([src |-> s, proto |-> pr, port |-> po])
                   /\ hist' = Append(hist, [src |-> s, via |-> ViaMap[s], proto |-> pr, port |-> po])
              /\ UNCHANGED phase
+AgeStep == /\ phase = "burst" /\ ~Sim /\ (\E i \in 1..Len(groups) : K!Age(i)) /\ UNCHANGED <<hist, phase>>
 Quiet1 == /\ phase = "burst" /\ Len(hist) >= (IF Sim THEN NProbes ELSE 1) /\ K!Tick /\ phase' = "ticked" /\ UNCHANGED hist
 Quiet2 == /\ phase = "ticked" /\ groups # <<>> /\ K!Tick /\ UNCHANGED <<hist, phase>>
 Emit == /\ phase = "ticked" /\ groups = <<>>
         /\ PrintT(<<"SCN", ToJson([probes |-> hist, reports |-> reports])>>)
         /\ phase' = "done" /\ UNCHANGED <<groups, reports, sent, hist>>
-Next == ProbeStep \/ Quiet1 \/ Quiet2 \/ Emit
+Next == ProbeStep \/ AgeStep \/ Quiet1 \/ Quiet2 \/ Emit
 Spec == Init /\ [][Next]_<<groups, reports, sent, hist, phase>>
 Inv == (phase = "ticked" => K!PortsExactlyDistinctProbed) /\ K!ReportedOncePerBurst
 =============================================================================
